@@ -58,11 +58,10 @@ WalkOblig(n, f) ==
      \* soundness of the two conditions trace validation falls back on beyond enumeration: the neighbourhood
      \* lies inside the orbit, and so does every variant ApplyCert(f, perm, mask) of the kind's group
      /\ \A kind \in {"p", "n", "npn"} : Neighbours2(kind, n, f) \subseteq Orbit(kind, n, f)
-     /\ \A k \in 1..Len(PermList(n)) :
-           /\ ApplyCert(n, f, PermList(n)[k], {}) \in Orbit("p", n, f)
-           /\ \A mk \in SUBSET (0..n) :
-                 /\ ApplyCert(n, f, PermList(n)[k], mk) \in Orbit("npn", n, f)
-                 /\ ApplyCert(n, f, IdPerm(n), mk) \in Orbit("n", n, f)
+     /\ {ApplyCert(n, f, PermList(n)[k], {}) : k \in 1..Len(PermList(n))} \subseteq Orbit("p", n, f)
+     /\ {ApplyCert(n, f, IdPerm(n), mk) : mk \in SUBSET (0..n)} \subseteq Orbit("n", n, f)
+     /\ UNION {{ApplyCert(n, f, PermList(n)[k], mk) : mk \in SUBSET (0..n)} : k \in 1..Len(PermList(n))}
+           \subseteq Orbit("npn", n, f)
 
 Next == /\ Assert(IF st.f = {0 - 1} THEN SeqOblig(st.n) ELSE WalkOblig(st.n, st.f), <<"canonization model", st>>)
         /\ UNCHANGED st
